@@ -23,7 +23,7 @@ CHECKS = [
     {"property_id": "C03", "level": "model_checking", "design_ref": "DESIGN.md §6 C03",
      "text": "TLC checks, for every (schema, value) of the scope grammar x boundary values, that the specification's decoder inverts every "
              "block-layout variant and rejects every single-point malformation and proper prefix; each case is replayed on the real decoder "
-             "(slice and chunked readers), and decode events of random schemas/values/layouts/corruptions are trace-validated by TLC against Dec.",
+             "(slice and chunked readers), and decode events of random schemas/values/layouts/corruptions are trace-validated by TLC against Dec. What a target is shown is part of the specification (DeView.tla): the abstract value for schema-directed targets, the erased view for self-describing ones, and for decimals under the integer hints (u64 / i64 / u128 / i128) the visit call and value at every boundary.",
      "note": TLC_NOTE,
      "technique": "TLA+ spec (AvroBinary.tla Dec/Layouts/Mal) + TLC bounded enumeration replayed into the code + TLC trace validation of recorded decode events"},
     {"property_id": "C13", "level": "model_checking", "design_ref": "DESIGN.md §6 C13",
@@ -44,14 +44,14 @@ CHECKS = [
      "text": "TLC model-checks ContainerWriterImpl => ContainerWriterAbs (ContainerWriter.tla: all op sequences <= 6, four block sizes, six invariants, "
              "two model mutants caught). The real writer runs every op sequence up to length 4 over {small, big, failing-at-once, failing-after-bytes, push, "
              "finish} closed by into_inner / drop, x block sizes x codecs (also zero-byte items); the sink is inspected after every call and each session "
-             "is validated by TLC on the real bytes (Trace_Writer: header, blocks, counts, sync, prefix-of-accepted, all-after-flush).",
+             "is validated by TLC on the real bytes (Trace_Writer: header, blocks, counts, sync, prefix-of-accepted, all-after-flush). The writer hook (objects in the open block, pending flag, buffered bytes) is tied to the accepted / flushed items after every call (Trace_Writer!HookOk; departures are notes).",
      "note": TLC_NOTE,
      "technique": "TLA+ state machine (ContainerWriter.tla) model-checked with TLC + exhaustive op sequences on the real writer, each session trace-validated by TLC against the abstract property on bytes"},
     {"property_id": "C16", "level": "model_checking", "design_ref": "DESIGN.md §6 C16",
      "text": "TLC model-checks the write_all_vectored loop against every sink schedule (VectoredWrite.tla, mutant caught). The real writer is run over "
              "sinks that accept k bytes per call, one slice per call, random mixes with Interrupted, and Interrupted / Ok(0) / hard error at every call index: "
              "the stream must equal the all-accepting sink's, a failing sink call must surface as Err (never a panic), transient failures must leave a "
-             "valid file (Trace_Writer with err_io), and the recorded write_vectored call sequences are validated by TLC (Trace_Vectored).",
+             "valid file (Trace_Writer with err_io), and the recorded write_vectored call sequences are validated by TLC (Trace_Vectored). Thorough tier: the loop invariant is also discharged as an INDUCTIVE invariant by Apalache (any number of steps), with the off-by-one mutant refuted.",
      "note": TLC_NOTE,
      "technique": "TLA+ model of the vectored write loop checked by TLC + scheduled sinks under the real writer, call sequences and resulting files trace-validated by TLC"},
     {"property_id": "C04", "level": "model_checking", "design_ref": "DESIGN.md §6 C04",
@@ -60,21 +60,21 @@ CHECKS = [
              "that a lexicographic measure strictly decreases at every step (termination and a step bound in len and the limits); a per-block-count mutant is "
              "rejected. The terminal states are replayed on the real decoder in small-stack child processes; hostile inputs (huge / negative counts and "
              "lengths spliced at every varint site, floods on recursive schemas, max_alloc_size around field lengths) are judged by TLC's Dec, with allocation, "
-             "peak-memory, refill-count and time observations checked against bounds in the input length and the limits.",
+             "peak-memory, refill-count and time observations checked against bounds in the input length and the limits. Limits also hold for ignoring targets (depth around the limit on recursive schemas; astronomic positive counts), judged by Trace_Skip with the event's limits; every leaf kind is fed ALL byte strings of length <= 3 over a boundary alphabet; the allocation cap must reject any field above both the cap and the reader's buffer.",
      "note": TLC_NOTE + " Crashes, allocations and work are observations (exit status, counting allocator, counters), not modelled in TLA+.",
      "technique": "TLA+ explicit-state decoder machine with a decreasing-measure action property checked by TLC; exhaustive short inputs replayed on the real decoder; hostile inputs trace-validated"},
     {"property_id": "C05", "level": "model_checking", "design_ref": "DESIGN.md §6 C05",
      "text": "TLC model-checks the per-codec encode loops against each library's status protocol (CodecLoop.tla; the loops as found before the "
              "repairs are rejected) and the writer state machine. Real code: op sequences x 6 codecs x levels (incl. above-max) x block sizes, every file read "
              "back with slice, chunked (1-byte, irregular) and BufReader (capacity 1, 7, 8192) readers, plus boundary-sized and large blocks (8/32/64 KiB +-1 "
-             "up to 2 MB, compressible and incompressible); every read is validated by TLC against ContainerReaderAbs (Trace_Reader, intact).",
+             "up to 2 MB, compressible and incompressible); every read is validated by TLC against ContainerReaderAbs (Trace_Reader, intact). Every intact read is also replayed, state by state (hook: reader state, objects left, latch), against the reader machine ContainerReader.tla (departures are recorded as notes, not alarms).",
      "note": TLC_NOTE + " Compression libraries are uninterpreted (called directly by the harness for de-framing).",
      "technique": "TLA+ models (CodecLoop.tla, ContainerWriter.tla) checked by TLC + write/read round trips on the real code trace-validated by TLC (Trace_Reader)"},
     {"property_id": "C17", "level": "model_checking", "design_ref": "DESIGN.md §6 C17",
      "text": "ContainerReaderAbs is written as a TLA+ trace specification (Trace_Reader.tla: prefix rule for truncation, must-report rule for the named "
              "corruptions, once-then-end-of-stream latch for unrecoverable errors using the reader state from hooks, sticky end of stream) whose rules are "
              "sanity-checked on every run; the real reader is run on one 3-block file per codec cut at EVERY offset, with every named corruption of every "
-             "block, single-byte corruption at every offset and an I/O error at every refill index, and each run is validated by TLC.",
+             "block, single-byte corruption at every offset and an I/O error at every refill index, and each run is validated by TLC. ContainerReader.tla is the reader as the code structures it (three input kinds); TLC checks it against C17's rules on all small damaged files (4 blocks x 3 objects x 14 calls in the thorough tier) and refutes a mutant; every structured read is replayed against it with the hook states.",
      "note": TLC_NOTE,
      "technique": "abstract reader property as a TLA+ trace spec; exhaustive fault enumeration over real files (every offset / refill index), each run trace-validated by TLC"},
     {"property_id": "C06", "level": "model_checking", "design_ref": "DESIGN.md §6 C06",
@@ -143,7 +143,7 @@ CHECKS = [
              "random walks of 16 steps. The safe-Rust interpreter vl executes every history on the real API natively (par_use on real threads vs the same scripts "
              "sequentially; two runs compared) and the highest-scoring + a random sample under Miri (Stacked Borrows; thorough: also Tree Borrows), the oracle for "
              "undefined behaviour: error paths of freeze at three key positions, moves through Box / Vec, Arc handles dropped before / after readers, readers moved "
-             "mid-file and dropped in any state, borrowed and owned values used after their schema and reader are gone.",
+             "mid-file and dropped in any state, borrowed and owned values used after their schema and reader are gone. Native runs are trace-validated against Lifecycle.tla (Trace_Lifecycle: every operation enabled, freeze as predicted, Arc strong counts = owners in the model).",
      "note": TLC_NOTE + " TLC cannot observe undefined behaviour: Miri is the oracle, on null / deflate / snappy codecs only, one thread schedule per seed; the sample "
              "of histories run under Miri is bounded by its speed (about 5 s per history).",
      "technique": "TLA+ ownership model checked by TLC, which also generates API histories; histories replayed by a safe-Rust interpreter natively (threads vs sequential) and under Miri"},
